@@ -14,6 +14,7 @@ S9  array reads take the element stride from the array's own type, not from the 
 S10 either check_or_constrain_* never re-types identifiers / elements / fields, or the lowering adjusts every number to its type's width
 S8  cross-reference: array outputs are decoded with the element count of the type (C09-L7)
 S11 cross-reference: resolved const definitions are visible to later ones (C12-K6)
+S13 the one-node re-typers check_or_constrain_* are only the leaf case of constrain_type (operands of an untyped compound expression are re-typed too)
 S12 the number type stored in a Range node (which the lowering sizes the elements with) follows the re-typing of the range
 """
 from .. import mir
@@ -524,5 +525,36 @@ def rule_s12(ctx):
     return res
 
 
+def rule_s13(ctx):
+    """An expression of an unspecified number type that takes on a fixed number type has to pass that type on to the operands that
+    share it (S2: constrain_type recurses); re-typing only its top node leaves `(255 + 1)` a 32-bit sum under a u8 type, which is
+    computed without overflow and then cut down.  So the one-node re-typers may only be the leaf case of constrain_type."""
+    res = RuleResult("S13", "check_or_constrain_* (re-types one node) is only reached through constrain_type (re-types the operands as well)")
+    n = 0
+    for fid in ("check::check_or_constrain_unsigned", "check::check_or_constrain_signed"):
+        if not ctx.has_fn(fid):
+            raise AnchorMissing("S13: %s not found" % fid)
+    for f in ctx.fns.values():
+        if not f.get("mir") or f["id"] == "check::constrain_type":
+            continue
+        body = ctx.body(f["id"])
+        for b, t in body.calls():
+            if body.blocks[b]["cleanup"]:
+                continue
+            cal = mir.callee(t) or ""
+            if cal in ("check::check_or_constrain_unsigned", "check::check_or_constrain_signed"):
+                n += 1
+                res.bad(Finding("S13", f["id"], "%s called outside constrain_type" % mir.last_seg(cal),
+                                "the expression is given a fixed number type by re-typing its top node only: operands of an untyped compound expression "
+                                "(`a == (255 + 1)`, `a << (255 + 1)`, `x + ((0 - 1) + 0)`) stay 32-bit unsigned and are computed without the overflow of the fixed type", t["sp"]))
+    cb = ctx.body("check::constrain_type")
+    leaf = [b for b, t in cb.calls() if (mir.callee(t) or "") in ("check::check_or_constrain_unsigned", "check::check_or_constrain_signed")]
+    if len(leaf) < 2:
+        raise AnchorMissing("S13: constrain_type no longer ends in check_or_constrain_* for number types")
+    if not res.findings:
+        res.ok({"verdict": "only constrain_type calls check_or_constrain_unsigned / _signed (%d leaf sites)" % len(leaf)})
+    return res
+
+
 def run(ctx):
-    return ctx.run_rules([rule_s1, rule_s2, rule_s3, rule_s4, rule_s5, rule_s6, rule_s7, rule_s8, rule_s9, rule_s10, rule_s11, rule_s12])
+    return ctx.run_rules([rule_s1, rule_s2, rule_s3, rule_s4, rule_s5, rule_s6, rule_s7, rule_s8, rule_s9, rule_s10, rule_s11, rule_s12, rule_s13])
